@@ -13,6 +13,7 @@ import (
 	"time"
 
 	"github.com/ClickHouse/ch-go"
+	"github.com/ClickHouse/ch-go/proto"
 	"pgregory.net/rapid"
 
 	"verif/harness/ref"
@@ -21,7 +22,7 @@ import (
 )
 
 var faultKinds = []string{"server-cut", "write-error", "callback-fails", "exception-anytime", "unknown-packet", "unhandled-packet",
-	"undecodable-block", "surplus-headers", "write-error+exception", "exception-cut", "reset"}
+	"undecodable-block", "surplus-headers", "write-error+exception", "exception-cut", "reset", "bad-input"}
 
 func TestC04FailedQuery(t *testing.T) {
 	st := stats.G()
@@ -46,6 +47,9 @@ func runC04(rt *rapid.T, st *stats.Collector) {
 	}
 	if fault == "callback-fails" && sc.name == "insert" && !sc.telemetry {
 		sc.name = "select"
+	}
+	if fault == "bad-input" && sc.name == "select" {
+		sc.name = rapid.SampledFrom([]string{"insert", "stream-insert"}).Draw(rt, "bad-input-scenario")
 	}
 	effRead := sc.readTO
 	if effRead == 0 {
@@ -110,6 +114,39 @@ func runC04(rt *rapid.T, st *stats.Collector) {
 		return steps
 	})
 	defer g.cleanup()
+	if fault == "bad-input" {
+		// The caller hands over input that cannot be encoded - one column has a row more than
+		// the others - in the first block or, when streaming, in a later round: the failure
+		// comes from the encoder after the Query packet (and earlier blocks) went out.
+		bad := new(proto.ColUInt8)
+		n := g.cols[0].col.Column().Rows()
+		for i := 0; i < n; i++ {
+			bad.Append(7)
+		}
+		g.q.Input = append(g.q.Input, proto.InputColumn{Name: "bad", Data: bad})
+		badRound := 0
+		if sc.name == "stream-insert" {
+			badRound = rapid.IntRange(0, sc.rounds).Draw(rt, "bad-round")
+		}
+		if badRound == 0 {
+			bad.Append(8)
+		} else {
+			inner, round := g.q.OnInput, 0
+			g.q.OnInput = func(ctx context.Context) error {
+				err := inner(ctx)
+				round++
+				// keep "bad" in step with the other columns, one row ahead from the chosen round on
+				*bad = (*bad)[:0]
+				for i := 0; i < g.cols[0].col.Column().Rows(); i++ {
+					bad.Append(7)
+				}
+				if round >= badRound {
+					bad.Append(8)
+				}
+				return err
+			}
+		}
+	}
 	if fault == "callback-fails" {
 		g.failCbAt = rapid.IntRange(0, 3).Draw(rt, "failing-callback-call")
 	}
